@@ -453,6 +453,14 @@ static SSL_CTX *load_ssl_ctx(const char *cert_data, const char *key_data,
     LOG_TLS_1_3_CIPHERS(log_ref, TLS_1_3_CIPHER_SUITES);
     rc = SSL_CTX_set_ciphersuites(ssl_ctx, TLS_1_3_CIPHER_SUITES);
     ut_assert(rc == 1);
+
+    /* Sessions are never resumed. SSL_OP_NO_TICKET does not keep a
+       TLS 1.3 server from sending (stateful) session tickets after
+       the handshake. Left unread in the receive queue of a client
+       which only sends, they turn that client's close into a TCP
+       reset, which the server sees as ECONNRESET instead of an
+       orderly close, possibly before having read all data. */
+    SSL_CTX_set_num_tickets(ssl_ctx, 0);
 #endif
 
     SSL_CTX_set_session_cache_mode(ssl_ctx, SSL_SESS_CACHE_OFF);
